@@ -133,12 +133,21 @@ def _match(entry: dict, sig: dict) -> bool:
     return True
 
 
+# Mismatches of a growth specification in behaviour the host property does not speak about: the
+# code differs from what the specification says, but no listed property is violated.  They are
+# reported as SPEC-DRIFT lines and in the evidence, and never change the exit code.
+DRIFT: list = []
+
+
 def classify(prop: str, sigs: list[dict]) -> tuple[dict, list]:
     """Split mismatch signatures into known findings (by entry id) and new violations."""
     entries = load_findings(prop)
     known: dict[str, list] = {}
     new = []
     for sig in sigs:
+        if sig.get('drift'):
+            DRIFT.append(sig)
+            continue
         for e in entries:
             if _match(e, sig):
                 known.setdefault(e['id'], []).append(sig)
@@ -159,6 +168,14 @@ def finish(prop: str, *, tier: str, seed: int, t0: float, coverage: dict, assump
     entries = {e['id']: e for e in load_findings(prop)}
     for fid, sigs in sorted(known.items()):
         print(f'KNOWN-FINDING: property={prop} {fid}: {entries[fid]["description"]} ({len(sigs)} occurrence(s) this run)')
+    drift_groups: dict = {}
+    for sig in DRIFT:
+        gk = f"spec={sig['drift']} " + ' '.join(f'{k}={sig.get(k)}' for k in ('kind', 'action', 'clause') if k in sig)
+        drift_groups[gk] = drift_groups.get(gk, 0) + 1
+    for gk, n in sorted(drift_groups.items()):
+        print(f'SPEC-DRIFT: {gk} x{n} (the code differs from a growth specification in behaviour outside '
+              f'the statement of {prop}; not a violation)')
+    coverage['spec_drift'] = drift_groups
     rc = 0
     replay_paths = []
     groups: dict = {}
